@@ -252,8 +252,11 @@ fn shift_amounts(l: Layout) -> Vec<i128> {
     v
 }
 
-fn parse_strings(l: Layout) -> Vec<(u32, String)> {
-    let mut v = vec![];
+fn parse_strings(l: Layout, tier: Tier) -> Vec<(u32, String)> {
+    // the literal families of the parsing check (ties and their neighbourhoods in all four radices, integer parts
+    // beyond the range, wrap-around literals, decimal limb-carry literals): Wrapping parsing must return the
+    // rounded value modulo 2^width for every one of them
+    let mut v = vcore::litfam::tie_strings(l, tier);
     let top = if l.int_bits() == 0 { Z::ZERO } else { Z::pow2(l.int_bits() - l.signed as u32) };
     for radix in [10u32, 2, 8, 16] {
         for s in ["0", "1", "-1", "+1.1", "0.1", "-0.1", "7", "-7", ".4", "1.", "", "-", "x", "1.1.1", "0.0000000000000000000000000000000000000001"] {
@@ -546,7 +549,7 @@ fn explore_layout(e: &Entry, tier: Tier, c11: bool, dump: bool) -> (Report, u64)
         }
     }
     // parsing
-    for (radix, s) in parse_strings(l) {
+    for (radix, s) in parse_strings(l, tier) {
         let got = subject(|| (e.parse)(radix, &s)).unwrap_or(Out::Panic);
         cx.judge(8, || format!("wrap {} parse {} utf8:{}", name, radix, s.bytes().map(|b| format!("{:02x}", b)).collect::<String>()), got, Some(model_parse(l, radix, &s)), None, "parse");
     }
